@@ -20,6 +20,7 @@ const ContractFileName = "contracts_verif.go"
 const GenFileName = "zz_govc_contracts_gen.go"
 
 type Engine struct {
+	SkippedExterns []string // assumed contracts whose target does not exist in the loaded program (ignored)
 	RepoDir   string
 	MirrorDir string
 	Fset      *token.FileSet
@@ -287,6 +288,13 @@ func (e *Engine) bind() error {
 			if fc.Extern {
 				key, err := e.externKey(bc)
 				if err != nil {
+					if strings.Contains(err.Error(), "not found") {
+						// an assumed contract on a function the program does not contain (the code does not import that
+						// package, or the dependency dropped the function): it constrains nothing; if the code now calls
+						// something else instead, that call is unmodelled and the obligations depending on it fail
+						e.SkippedExterns = append(e.SkippedExterns, err.Error())
+						continue
+					}
 					return err
 				}
 				if err := e.checkExternSig(bc, key); err != nil {
@@ -405,23 +413,39 @@ func (e *Engine) externKey(bc *BoundContract) (string, error) {
 		}
 		for _, im := range cf.Imports {
 			f := strings.Fields(im)
-			if len(f) == 2 && f[0] == parts[0] {
-				if p := e.AllPkgs[strings.Trim(f[1], "\"")]; p != nil {
-					if sp := e.Prog.Package(p.Types); sp != nil {
-						if fn := sp.Func(parts[1]); fn != nil {
-							return fn.String(), nil
-						}
+			if len(f) == 0 {
+				continue
+			}
+			// the contract file's own imports decide which package a qualifier means ("rand" is crypto/rand when the
+			// file imports crypto/rand, whatever other packages of that name the program contains)
+			p := e.AllPkgs[strings.Trim(f[len(f)-1], "\"")]
+			if p == nil {
+				continue
+			}
+			name := p.Name
+			if len(f) == 2 {
+				name = f[0]
+			}
+			if name == parts[0] {
+				if sp := e.Prog.Package(p.Types); sp != nil {
+					if fn := sp.Func(parts[1]); fn != nil {
+						return fn.String(), nil
 					}
 				}
 			}
 		}
 	}
-	for _, p := range e.AllPkgs {
+	var paths []string
+	for path, p := range e.AllPkgs {
 		if p.Name == parts[0] {
-			if sp := e.Prog.Package(p.Types); sp != nil {
-				if fn := sp.Func(parts[1]); fn != nil {
-					return fn.String(), nil
-				}
+			paths = append(paths, path)
+		}
+	}
+	sort.Strings(paths) // deterministic when several packages share the name
+	for _, path := range paths {
+		if sp := e.Prog.Package(e.AllPkgs[path].Types); sp != nil {
+			if fn := sp.Func(parts[1]); fn != nil {
+				return fn.String(), nil
 			}
 		}
 	}
